@@ -218,8 +218,12 @@ class _Method:
                 return "CDescDiffers"
             if isinstance(t.ops[0], ast.IsNot) and isinstance(r, ast.Constant) and r.value is None and _is_self(l, "fp"):
                 return "CHasFp"
+            if isinstance(t.ops[0], ast.IsNot) and isinstance(r, ast.Constant) and r.value is None and _is_self(l, "writer"):
+                return "CHasWriter"
         if _is_self(t, "fp"):
             return "CHasFp"
+        if _is_self(t, "writer"):
+            return "CHasWriter"
         if isinstance(t, ast.BoolOp) and isinstance(t.op, ast.And) and len(t.values) == 2 and _is_self(t.values[0], "fp"):
             v = t.values[1]
             if (isinstance(v, ast.UnaryOp) and isinstance(v.op, ast.Not) and isinstance(v.operand, ast.Call)
@@ -295,20 +299,21 @@ class _Method:
                     return "FpClose"
         self.bad(st, "unrecognised statement")
 
-    def body(self):
+    def stmts(self, body):
         out = []
-        for st in self.node.body:
+        for st in body:
             if isinstance(st, ast.If):
                 if st.orelse:
                     self.bad(st, "if with else")
-                c = self.cond(st.test)
-                acts = [a for a in (self.act(x) for x in st.body) if a]
-                out.append("When %s %s" % (c, clist(acts)))
+                out.append("When %s %s" % (self.cond(st.test), self.stmts(st.body)))
             else:
                 a = self.act(st)
                 if a:
                     out.append("Do %s" % a)
         return clist(out)
+
+    def body(self):
+        return self.stmts(self.node.body)
 
 
 def writer_code(avro):
